@@ -20,7 +20,7 @@ func c02SeqParts() []sup.Part {
 	r.Steps = 80
 	return []sup.Part{
 		exhaustivePart("seq-exhaustive", cond),
-		randomPart("seq-random", 200, 3000, r),
+		randomPart("seq-random", 800, 12000, r),
 	}
 }
 
@@ -40,7 +40,7 @@ func c08SeqParts() []sup.Part {
 	r.Steps = 60
 	return []sup.Part{
 		exhaustivePart("seq-exhaustive", ex),
-		randomPart("seq-random", 200, 3000, r),
+		randomPart("seq-random", 800, 12000, r),
 	}
 }
 
@@ -64,7 +64,7 @@ func c09SeqParts() []sup.Part {
 	r.AtEnd = dumpSweep
 	return []sup.Part{
 		exhaustivePart("snapshot-exhaustive", ex),
-		randomPart("snapshot-random", 200, 3000, r),
+		randomPart("snapshot-random", 600, 9000, r),
 	}
 }
 
@@ -80,7 +80,7 @@ func c14SeqParts() []sup.Part {
 	r.Steps = 70
 	return []sup.Part{
 		exhaustivePart("expiry-in-force-exhaustive", ex),
-		randomPart("expiry-in-force-random", 150, 2000, r),
+		randomPart("expiry-in-force-random", 400, 6000, r),
 	}
 }
 
@@ -96,6 +96,6 @@ func c18SeqParts() []sup.Part {
 	r.Steps = 100
 	return []sup.Part{
 		exhaustivePart("seq-exhaustive", sub),
-		randomPart("seq-random", 300, 4000, r),
+		randomPart("seq-random", 1000, 15000, r),
 	}
 }
